@@ -405,8 +405,10 @@ func c08State1(c *Ctx, cs *Case, f, merged model.Forest, doc, fkey string, st *c
 					target, rel = "", ""
 				}
 				opts := fsOpts(target, nil, false, false, false, strict)
+				stray, strayName := strayOptions("verify", si+ri)
+				opts = append(opts, stray...)
 				cs.Entry = rt.Name + "[strict=" + strconv.FormatBool(strict) + "]"
-				cs.Opt = map[string]string{"state": strconv.Itoa(si), "default_target": strconv.FormatBool(deflt), "kind": kind}
+				cs.Opt = map[string]string{"state": strconv.Itoa(si), "default_target": strconv.FormatBool(deflt), "kind": kind, "stray_options": strayName}
 				run := func(doc string, root *model.Node, roots model.Forest) {
 					cs.Tags = nil
 					var o Outcome
